@@ -53,7 +53,10 @@ def load_cases(out):
     cf = os.path.join(out, "cases_corpus.jsonl")
     if os.path.exists(cf):
         rows += [json.loads(ln) for ln in open(cf) if ln.strip()]
-    for f in sorted([p for p in glob.glob(os.path.join(out, "cases_*.jsonl")) if not p.endswith("corpus.jsonl")], key=lambda p: int(p.split("_")[-1].split(".")[0])):
+    sf = os.path.join(out, "cases_sizes.jsonl")
+    if os.path.exists(sf):
+        rows += [json.loads(ln) for ln in open(sf) if ln.strip()]
+    for f in sorted([p for p in glob.glob(os.path.join(out, "cases_*.jsonl")) if not p.endswith("corpus.jsonl") and not p.endswith("sizes.jsonl")], key=lambda p: int(p.split("_")[-1].split(".")[0])):
         for ln in open(f):
             if ln.strip():
                 rows.append(json.loads(ln))
@@ -122,8 +125,10 @@ def run(ctx, known, built):
     SH = 500
     files = []
     shard_rows = {}
-    for b in range(0, len(rows), SH):
-        part = rows[b:b + SH]
+    # documents too large for the Coq evaluation are covered by the implementation-side oracle only
+    crows = [r for r in rows if not r.get("nomodel")]
+    for b in range(0, len(crows), SH):
+        part = crows[b:b + SH]
         vf = os.path.join(out, "cases_%d.v" % b)
         with open(vf, "w") as f:
             f.write(HEADER)
@@ -178,10 +183,12 @@ def run(ctx, known, built):
         "rule": "documents composed from legal building blocks (all element kinds, optional attributes, both format "
                 "versions, glyph libs with object libs) with ONE injected rule violation or surface variation out of 54 "
                 "kinds at a random applicable position, rendered with varied legal XML syntax; every 7th document has no "
-                "injection. Non-trivial = distinct documents with an injection.",
+                "injection; plus legal documents of chosen sizes (every identifier count 0..70, 100, 150, 300, 1000; up to "
+                "1000 objects without identifiers, 300 code points, 1000 lib keys; above 160 items the model is not "
+                "evaluated). Non-trivial = distinct documents with an injection.",
         "exhaustive": False,
         "input_distribution": hist,
-        "traces_validated_against_impl": len(rows),
+        "traces_validated_against_impl": len(crows),
         "corpus_witnesses": len({r["corpus"] for r in rows if r.get("corpus")}),
         "stale_witnesses": sorted(stale),
     })
